@@ -24,7 +24,8 @@ CHECKS["C06"] = ("predicate normal forms (linear inequalities) compared between 
 CHECKS["C07"] = ("predicate normal forms with opaque type-equality literals for follow_wire / find_snake; structural accounting rules for unsnake; parallel-slice rule for the deletion",
     "Decides the structural clauses behind snake removal: the three-way split of follow_wire equals the interval spec; a pair is yankable only when the cap's leg enters the opposite leg of a "
     "Cup AND the surviving wire keeps its type (so deletion composes and well-typed inputs never raise AxiomError); each obstruction loop makes one interchange, one yield and one index "
-    "update; the deletion is a parallel cut under checked >>; Cup/Cap refuse non-adjoint legs. Not decided: the re-indexing of right_obstruction; denotational equality (snake equations, cited).",
+    "update; the deletion is a parallel cut under checked >>; Cup/Cap refuse non-adjoint legs; the obstructions recorded for the other side are re-indexed after each move; the search for a yankable pair is complete "
+    "(every pair meeting the conditions is returned). Not decided: denotational equality (snake equations, cited).",
     TB, "DESIGN.md §4 C07")
 CHECKS["C10"] = ("abstract evaluation of Diagram.swap on symbolic types in three emptiness cases, symbolic row-by-row scan of the base case, one generic iteration of permutation (parallel rearrangement), parametricity use-analysis",
     "Decides for all types and permutations: swap(left, right) is typed left@right -> right@left on distinct wire atoms (hence, by parametricity and induction on |left|, realises exactly the block "
@@ -55,7 +56,8 @@ CHECKS["C14"] = ("abstract construction of generic box instances and abstract ex
 CHECKS["C11"] = ("constant folding of the literal gate tables and closed-form array properties lifted from the syntax tree (whitelisted numeric vocabulary) compared with tket reference matrices on sample phases; abstract execution of rotation daggers; flag-dagger typestate of array readers",
     "Decides that every literal gate table and closed-form rotation array of gates.py, read in the [in, out] order in which arrays are interpreted, equals the tket matrix of that name (phases in full turns), that Controlled builds "
     "diag(1, U), that self-adjoint flags sit only on Hermitian tables, that rotations dagger by phase negation with M(-φ) = M(φ)†, that every reader of a flag-daggered gate's array handles the flag, and that kets/bras/bits are basis "
-    "tensors. With C08/C09 this gives the unitary of a pure circuit and its dagger. Not decided: rewire; floating-point error.", TB, "DESIGN.md §4 C11")
+    "tensors. With C08/C09 this gives the unitary of a pure circuit and its dagger; rewire is folded on all pairs of distinct positions up to width 5 (7 in the thorough tier) against the gate conjugated by the permutation. "
+    "Not decided: floating-point error.", TB, "DESIGN.md §4 C11")
 CHECKS["C15"] = ("shape rules for the product rule; constant folding of each rotation class's grad method as a closed term in a two-semantics reference algebra (pure matrices / doubled maps with Born rule) compared with the 5-point-stencil derivative of the class's own closed-form array; abstract execution of scalar gradients",
     "Decides the product-rule shape of Diagram.grad and the jacobians, totality and guards of the per-class grad methods, and — for Rx, Ry, Rz, CU1, CRz, CRx in pure and mixed mode — that the gradient term evaluates to the derivative of the "
     "class's own array (shift and factor constants), and that mixed scalars keep mixedness. Known findings (test-pinned): pure scalars in mixed mode, ZX spider gradients under the standard interpretation. "
@@ -85,7 +87,7 @@ CHECKS["C20"] = ("case analysis of make_space / add_box with abscissae as linear
     "height ordering along each kind of edge, cross-site agreement of node keys, override/signature check of the back-ends, None-flow and writer/reader agreement of diagramize / nx2diagram",
     "Decides the census of nodes and edges of diagram2nx, the splice of the row of open wires, that every shift translates a closed half-plane of all nodes by exactly the tested overlap, the formulas for half width, x_pos, "
     "the centred unit-spaced cod wires with margin >= 1, verticality of dom / output nodes, strictly decreasing heights, consistent node keys at all 25 construction sites, that both back-ends override every primitive, and the "
-    "diagramize / nx2diagram agreement (offset normalisation, whiskering, splice). The rendered output of matplotlib / TikZ, inner wires of bubbles and non-planar uses of diagramize are not decided.",
+    "diagramize / nx2diagram agreement (offset normalisation, whiskering, splice). The rendered output of matplotlib / TikZ and non-planar uses of diagramize are not decided.",
     TB, "DESIGN.md §4 C20")
 CHECKS["C17"] = ("writer/reader convention agreement (phases, vertex types, Hadamard edges, scalars), slice-partition typing of the (vertex, flag) row of to_pyzx, positional effect analysis of from_pyzx.move on symbolic rows "
     "(the recorded row against the permutation realised by the swaps), statement-shape comparison of the gathering / vertex / output loops, dominating refusal guards",
